@@ -78,4 +78,388 @@ theorem fnSum_spec (e : Arg → M Val) (h : Heap) (args : List Arg) (vs : List V
       (first | exact sumLoop_spec e h as vs (.i _) hp.2 | exact sumLoop_spec e h as vs (.f _) hp.2 | exact sumLoop_spec e h as vs (.s _) hp.2)
   | [], _ :: _, hp => simp [PureArgs] at hp
   | _ :: _, [], hp => simp [PureArgs] at hp
+/-! ## dif product quotient mod -/
+
+@[simp] theorem exceptMap_ok (f : α → β) (a : α) : (Except.ok a : Except ε α).map f = .ok (f a) := rfl
+@[simp] theorem exceptMap_error (f : α → β) (e : ε) : (Except.error e : Except ε α).map f = .error e := rfl
+
+def ArithOp.spec : ArithOp → Spec.Arith
+  | .dif => .dif | .product => .product | .quotient => .quotient
+
+theorem arithStep_arith2 (dev : Dev) (op : ArithOp) (acc : NumAcc) (v : Val) :
+    (arithStep dev op acc v).map NumAcc.val = Spec.arith2 dev op.spec acc.val v := by
+  cases acc <;> cases v <;> cases op <;>
+    simp [arithStep, Spec.arith2, NumAcc.val, Spec.raise, ArithOp.spec, ArithOp.iop, Spec.Arith.onInt,
+      arithF, Spec.Arith.onFlt, ArithOp.fop, apply_ite (Except.map NumAcc.val)] <;>
+    (split <;> simp_all [NumAcc.val])
+
+theorem arithLoop_spec (dev : Dev) (op : ArithOp) (e : Arg → M Val) (h : Heap) :
+    ∀ (args : List Arg) (vs : List Val) (acc : NumAcc), PureArgs e h args vs →
+      arithLoop dev op e acc args h = (Spec.foldM' (Spec.arith2 dev op.spec) acc.val vs, h)
+  | [], [], acc, _ => by simp [arithLoop, Spec.foldM']
+  | a :: as, v :: vs, acc, hp => by
+    have h1 := hp.1
+    have ih := arithLoop_spec dev op e h as vs
+    have hs := arithStep_arith2 dev op acc v
+    simp only [arithLoop, bind_apply, h1, liftE_apply, Spec.foldM']
+    cases hst : arithStep dev op acc v with
+    | ok acc' =>
+      simp [hst, Except.map] at hs
+      simp [← hs, ih acc' hp.2]
+    | error er =>
+      simp [hst, Except.map] at hs
+      simp [← hs]
+  | [], _ :: _, _, hp => by simp [PureArgs] at hp
+  | _ :: _, [], _, hp => by simp [PureArgs] at hp
+
+theorem fnArith_spec (dev : Dev) (op : ArithOp) (e : Arg → M Val) (h : Heap) (args : List Arg) (vs : List Val)
+    (hp : PureArgs e h args vs) : fnArith dev op e args h = (Spec.arith dev op.spec vs, h) := by
+  match args, vs, hp with
+  | [], [], _ => simp [fnArith, Spec.arith]
+  | a :: as, v :: vs, hp =>
+    have h1 := hp.1
+    simp only [fnArith, bind_apply, h1, liftE_apply]
+    cases v <;> simp [arithFirst, Spec.arith, Spec.raise, Val.isNum] <;>
+      (first | exact arithLoop_spec dev op e h as vs (.i _) hp.2 | exact arithLoop_spec dev op e h as vs (.f _) hp.2)
+  | [], _ :: _, hp => simp [PureArgs] at hp
+  | _ :: _, [], hp => simp [PureArgs] at hp
+
+theorem fnMod_spec (e : Arg → M Val) (h : Heap) (args : List Arg) (vs : List Val)
+    (hp : PureArgs e h args vs) : fnMod e args h = (Spec.mod vs, h) := by
+  match args, vs, hp with
+  | [], [], _ => simp [fnMod, Spec.mod, Spec.raise]
+  | [a], [v], hp => simp [fnMod, Spec.mod, Spec.raise]
+  | [a, b], [v, w], hp =>
+    have h1 := hp.1
+    have h2 := hp.2.1
+    cases v <;> cases w <;> simp [fnMod, Spec.mod, Spec.raise, h1, h2, asInt] <;> (split <;> simp_all)
+  | a :: b :: c :: r, v :: w :: x :: vs, hp => simp [fnMod, Spec.mod, Spec.raise]
+  | [], _ :: _, hp => simp [PureArgs] at hp
+  | _ :: _, [], hp => simp [PureArgs] at hp
+  | [_], _ :: _ :: _, hp => simp [PureArgs] at hp
+  | _ :: _ :: _, [_], hp => simp [PureArgs] at hp
+  | [_, _], _ :: _ :: _ :: _, hp => simp [PureArgs] at hp
+  | _ :: _ :: _ :: _, [_, _], hp => simp [PureArgs] at hp
+
+/-! ## comparison chains -/
+
+theorem cmpNumLoop_spec (dev : Dev) (op : CmpOp) (e : Arg → M Val) (h : Heap) :
+    ∀ (args : List Arg) (vs : List Val) (x : Flt), PureArgs e h args vs →
+      cmpNumLoop dev op e x args h = (Spec.numChain dev op x vs, h)
+  | [], [], x, _ => by simp [cmpNumLoop, Spec.numChain]
+  | a :: as, v :: vs, x, hp => by
+    have h1 := hp.1
+    have ih := cmpNumLoop_spec dev op e h as vs
+    simp only [cmpNumLoop, bind_apply, h1, Spec.numChain, Spec.numOf]
+    cases hf : asFloat (!dev.cmpFloat) v with
+    | none => simp [Spec.raise]
+    | some y =>
+      by_cases hh : op.fHolds x y = true
+      · simp [hh, ih y hp.2]
+      · simp [hh]
+  | [], _ :: _, _, hp => by simp [PureArgs] at hp
+  | _ :: _, [], _, hp => by simp [PureArgs] at hp
+
+theorem cmpStrLoop_spec (op : CmpOp) (e : Arg → M Val) (h : Heap) :
+    ∀ (args : List Arg) (vs : List Val) (x : Bytes), PureArgs e h args vs →
+      cmpStrLoop op e x args h = (Spec.strChain op x vs, h)
+  | [], [], x, _ => by simp [cmpStrLoop, Spec.strChain]
+  | a :: as, v :: vs, x, hp => by
+    have h1 := hp.1
+    have ih := cmpStrLoop_spec op e h as vs
+    simp only [cmpStrLoop, bind_apply, h1, Spec.strChain]
+    by_cases hh : op.sHolds x v.strOrEmpty = true
+    · simp [hh, ih _ hp.2]
+    · simp [hh]
+  | [], _ :: _, _, hp => by simp [PureArgs] at hp
+  | _ :: _, [], _, hp => by simp [PureArgs] at hp
+
+/-- the comparison functions compute the documented chain whenever the first argument is what the code
+looks at: always when the first argument is evaluated (`cmpUneval = false`), and for a literal first
+argument in the code as it is -/
+theorem fnCmp_spec (dev : Dev) (op : CmpOp) (e : Arg → M Val) (h : Heap) (args : List Arg) (vs : List Val)
+    (hp : PureArgs e h args vs)
+    (hfirst : dev.cmpUneval = false ∨ ∃ v r, args = .lit v :: r ∧ vs.head? = some v) :
+    fnCmp dev op e args h = (Spec.cmp dev op vs, h) := by
+  match args, vs, hp with
+  | [], [], _ => simp [fnCmp, Spec.cmp]
+  | a :: as, v :: vs, hp =>
+    have h1 := hp.1
+    have hhead : cmpHead dev e a h = (.ok v, h) := by
+      rcases hfirst with hu | ⟨v', r, ha, hv⟩
+      · simp [cmpHead, hu, h1]
+      · simp at ha hv
+        subst hv
+        by_cases hu : dev.cmpUneval = true
+        · simp [cmpHead, hu, ha.1]
+        · simp [cmpHead, hu, h1]
+    simp only [fnCmp, bind_apply, hhead]
+    cases v <;> simp [Spec.cmp, Spec.numOf, asFloat, Spec.raise] <;>
+      (first | exact cmpNumLoop_spec dev op e h as vs _ hp.2 | exact cmpStrLoop_spec op e h as vs _ hp.2)
+  | [], _ :: _, hp => simp [PureArgs] at hp
+  | _ :: _, [], hp => simp [PureArgs] at hp
+
+/-! ## equal / neq -/
+
+theorem equalM_apply (dev : Dev) (v0 v1 : Val) (h : Heap) :
+    equalM dev v0 v1 h = (match eqVals dev h (eqFuel h) [] v0 v1 with
+      | .yes => (.ok true, h)
+      | .no => (.ok false, h)
+      | .cyc => (.error .diverge, h)
+      | .amb => (.error .enum, h)) := rfl
+
+theorem eqLoop_spec (dev : Dev) (e : Arg → M Val) (h : Heap) (v0 : Val) :
+    ∀ (args : List Arg) (vs : List Val), PureArgs e h args vs →
+      eqLoop dev e v0 args h = (Spec.equalTo dev h v0 vs, h)
+  | [], [], _ => by simp [eqLoop, Spec.equalTo]
+  | a :: as, v :: vs, hp => by
+    have h1 := hp.1
+    have ih := eqLoop_spec dev e h v0 as vs hp.2
+    simp only [eqLoop, bind_apply, h1, Spec.equalTo, equalM_apply]
+    cases eqVals dev h (eqFuel h) [] v0 v <;> simp [ih]
+  | [], _ :: _, hp => by simp [PureArgs] at hp
+  | _ :: _, [], hp => by simp [PureArgs] at hp
+
+theorem fnEqual_spec (dev : Dev) (e : Arg → M Val) (h : Heap) (args : List Arg) (vs : List Val)
+    (hp : PureArgs e h args vs) : fnEqual dev e args h = (Spec.equal dev h vs, h) := by
+  match args, vs, hp with
+  | [], [], _ => simp [fnEqual, Spec.equal]
+  | a :: as, v :: vs, hp =>
+    have h1 := hp.1
+    simp only [fnEqual, bind_apply, h1, Spec.equal]
+    exact eqLoop_spec dev e h v as vs hp.2
+  | [], _ :: _, hp => simp [PureArgs] at hp
+  | _ :: _, [], hp => simp [PureArgs] at hp
+
+/-! ## logic -/
+
+theorem fnAnd_spec (e : Arg → M Val) (h : Heap) :
+    ∀ (args : List Arg) (vs : List Val), PureArgs e h args vs → fnAnd e args h = (Spec.land vs, h)
+  | [], [], _ => by simp [fnAnd, Spec.land]
+  | a :: as, v :: vs, hp => by
+    have h1 := hp.1
+    have ih := fnAnd_spec e h as vs hp.2
+    simp only [fnAnd, bind_apply, h1]
+    cases v <;> simp [Spec.land, Spec.raise]
+    rename_i b
+    cases b <;> simp [Spec.land, ih]
+  | [], _ :: _, hp => by simp [PureArgs] at hp
+  | _ :: _, [], hp => by simp [PureArgs] at hp
+
+theorem fnOr_spec (e : Arg → M Val) (h : Heap) :
+    ∀ (args : List Arg) (vs : List Val), PureArgs e h args vs → fnOr e args h = (Spec.lor vs, h)
+  | [], [], _ => by simp [fnOr, Spec.lor]
+  | a :: as, v :: vs, hp => by
+    have h1 := hp.1
+    have ih := fnOr_spec e h as vs hp.2
+    simp only [fnOr, bind_apply, h1]
+    cases v <;> simp [Spec.lor, Spec.raise, ih]
+    rename_i b
+    cases b <;> simp [Spec.lor, ih]
+  | [], _ :: _, hp => by simp [PureArgs] at hp
+  | _ :: _, [], hp => by simp [PureArgs] at hp
+
+theorem fnNot_spec (e : Arg → M Val) (h : Heap) (args : List Arg) (vs : List Val)
+    (hp : PureArgs e h args vs) : fnNot e args h = (Spec.lnot vs, h) := by
+  match args, vs, hp with
+  | [], [], _ => simp [fnNot, Spec.lnot, Spec.raise]
+  | [a], [v], hp =>
+    have h1 := hp.1
+    cases v <;> simp [fnNot, Spec.lnot, Spec.raise, h1]
+  | a :: b :: r, v :: w :: vs, hp => simp [fnNot, Spec.lnot, Spec.raise]
+  | [], _ :: _, hp => simp [PureArgs] at hp
+  | _ :: _, [], hp => simp [PureArgs] at hp
+  | [_], _ :: _ :: _, hp => simp [PureArgs] at hp
+  | _ :: _ :: _, [_], hp => simp [PureArgs] at hp
+
+/-! ## list nth size predicates at root -/
+
+theorem mapM'_pure (e : Arg → M Val) (h : Heap) :
+    ∀ (args : List Arg) (vs : List Val), PureArgs e h args vs → mapM' e args h = (.ok vs, h)
+  | [], [], _ => by simp [mapM']
+  | a :: as, v :: vs, hp => by
+    simp [mapM', hp.1, mapM'_pure e h as vs hp.2]
+  | [], _ :: _, hp => by simp [PureArgs] at hp
+  | _ :: _, [], hp => by simp [PureArgs] at hp
+
+theorem fnList_spec (e : Arg → M Val) (h : Heap) (args : List Arg) (vs : List Val)
+    (hp : PureArgs e h args vs) : fnList e args h = Spec.list vs h := by
+  simp [fnList, Spec.list, mapM'_pure e h args vs hp]
+
+theorem fnNth_spec (e : Arg → M Val) (h : Heap) (args : List Arg) (vs : List Val)
+    (hp : PureArgs e h args vs) : fnNth e args h = (Spec.nth h vs, h) := by
+  match args, vs, hp with
+  | [], [], _ => simp [fnNth, Spec.nth, Spec.raise]
+  | [a], [v], hp => simp [fnNth, Spec.nth, Spec.raise]
+  | [a, b], [v, w], hp =>
+    have h1 := hp.1
+    have h2 := hp.2.1
+    cases v <;> cases w <;> simp [fnNth, Spec.nth, Spec.raise, h1, h2, asInt] <;> (split <;> simp_all)
+  | a :: b :: c :: r, v :: w :: x :: vs, hp => simp [fnNth, Spec.nth, Spec.raise]
+  | [], _ :: _, hp => simp [PureArgs] at hp
+  | _ :: _, [], hp => simp [PureArgs] at hp
+  | [_], _ :: _ :: _, hp => simp [PureArgs] at hp
+  | _ :: _ :: _, [_], hp => simp [PureArgs] at hp
+  | [_, _], _ :: _ :: _ :: _, hp => simp [PureArgs] at hp
+  | _ :: _ :: _ :: _, [_, _], hp => simp [PureArgs] at hp
+
+theorem fnSize_spec (e : Arg → M Val) (h : Heap) (args : List Arg) (vs : List Val)
+    (hp : PureArgs e h args vs) : fnSize e args h = (Spec.size h vs, h) := by
+  match args, vs, hp with
+  | [], [], _ => simp [fnSize, Spec.size, Spec.raise]
+  | [a], [v], hp =>
+    have h1 := hp.1
+    cases v <;> simp [fnSize, Spec.size, h1]
+  | a :: b :: r, v :: w :: vs, hp => simp [fnSize, Spec.size, Spec.raise]
+  | [], _ :: _, hp => simp [PureArgs] at hp
+  | _ :: _, [], hp => simp [PureArgs] at hp
+  | [_], _ :: _ :: _, hp => simp [PureArgs] at hp
+  | _ :: _ :: _, [_], hp => simp [PureArgs] at hp
+
+theorem fnPred_spec (p : Val → Bool) (e : Arg → M Val) (h : Heap) (args : List Arg) (vs : List Val)
+    (hp : PureArgs e h args vs) : fnPred p e args h = (Spec.pred p vs, h) := by
+  match args, vs, hp with
+  | [], [], _ => simp [fnPred, Spec.pred, Spec.raise]
+  | [a], [v], hp => simp [fnPred, Spec.pred, hp.1]
+  | a :: b :: r, v :: w :: vs, hp => simp [fnPred, Spec.pred, Spec.raise]
+  | [], _ :: _, hp => simp [PureArgs] at hp
+  | _ :: _, [], hp => simp [PureArgs] at hp
+  | [_], _ :: _ :: _, hp => simp [PureArgs] at hp
+  | _ :: _ :: _, [_], hp => simp [PureArgs] at hp
+
+theorem joinLoop_spec (e : Arg → M Val) (h : Heap) :
+    ∀ (args : List Arg) (vs : List Val) (first : Bool) (acc : Bytes), PureArgs e h args vs →
+      joinLoop e args first acc h = (Spec.joined vs first acc, h)
+  | [], [], _, _, _ => by simp [joinLoop, Spec.joined]
+  | a :: as, v :: vs, first, acc, hp => by
+    have h1 := hp.1
+    simp only [joinLoop, bind_apply, h1]
+    cases v <;> simp [Spec.joined, Spec.raise]
+    exact joinLoop_spec e h as vs _ _ hp.2
+  | [], _ :: _, _, _, hp => by simp [PureArgs] at hp
+  | _ :: _, [], _, _, hp => by simp [PureArgs] at hp
+
+theorem fnPathOf_spec (isAt : Bool) (e : Arg → M Val) (h : Heap) (args : List Arg) (vs : List Val)
+    (hp : PureArgs e h args vs) : fnPathOf isAt e args h = (Spec.pathOf isAt vs, h) := by
+  simp only [fnPathOf, bind_apply, joinLoop_spec e h args vs true [] hp, Spec.pathOf]
+  cases Spec.joined vs true [] with
+  | error er => simp
+  | ok b =>
+    simp only []
+    cases hp' : parseRel b <;> simp
+
+/-! ## get getall set del -/
+
+theorem fnGet_path (env : Env) (e : Arg → M Val) (root at_ : Val) (p : Path) (h : Heap) :
+    fnGet env e root at_ [.path p] h = (Spec.get env h p (if p.isAt then at_ else root), h) := by
+  simp only [fnGet, pathArg, bind_apply, pure_apply, getHeap_apply, liftE_apply, Spec.get]
+  cases pathFirst env h (if p.isAt then at_ else root) p.frags <;> rfl
+
+theorem fnGet_data (env : Env) (e : Arg → M Val) (root at_ : Val) (p : Path) (d : Arg) (data : Val) (h : Heap)
+    (hd : e d h = (.ok data, h)) :
+    fnGet env e root at_ [.path p, d] h = (Spec.get env h p data, h) := by
+  simp only [fnGet, pathArg, bind_apply, pure_apply, getHeap_apply, liftE_apply, Spec.get, hd]
+  cases pathFirst env h data p.frags <;> rfl
+
+theorem fnGetall_path (env : Env) (e : Arg → M Val) (root at_ : Val) (p : Path) (h : Heap) :
+    fnGetall env e root at_ [.path p] h = Spec.getall env p (if p.isAt then at_ else root) h := by
+  simp only [fnGetall, pathArg, bind_apply, pure_apply, getHeap_apply, liftE_apply, Spec.getall]
+  cases pathGet env h (if p.isAt then at_ else root) p.frags <;> rfl
+
+theorem fnGetall_data (env : Env) (e : Arg → M Val) (root at_ : Val) (p : Path) (d : Arg) (data : Val) (h : Heap)
+    (hd : e d h = (.ok data, h)) :
+    fnGetall env e root at_ [.path p, d] h = Spec.getall env p data h := by
+  simp only [fnGetall, pathArg, bind_apply, pure_apply, getHeap_apply, liftE_apply, Spec.getall, hd]
+  cases pathGet env h data p.frags <;> rfl
+
+theorem fnSet_path (e : Arg → M Val) (root at_ : Val) (p : Path) (b : Arg) (v : Val) (h : Heap)
+    (hb : e b h = (.ok v, h)) :
+    fnSet e root at_ [.path p, b] h = Spec.setOrDel (some v) p (if p.isAt then at_ else root) at_ h := by
+  simp only [fnSet, pathArg, bind_apply, pure_apply, hb, setAt, Spec.setOrDel]
+  by_cases hf : p.frags.isEmpty = true
+  · simp [hf, Spec.raise]
+  · simp [hf]
+    cases hps : pathSet (some v) (if p.isAt then at_ else root) p.frags h with
+    | mk r h' => cases r <;> simp
+
+theorem fnDel_path (root at_ : Val) (p : Path) (h : Heap) :
+    fnDel root at_ [.path p] h = Spec.setOrDel none p (if p.isAt then at_ else root) at_ h := by
+  simp only [fnDel, bind_apply, pure_apply, setAt, Spec.setOrDel]
+  by_cases hf : p.frags.isEmpty = true
+  · simp [hf, Spec.raise]
+  · simp [hf]
+    cases hps : pathSet none (if p.isAt then at_ else root) p.frags h with
+    | mk r h' => cases r <;> simp
+
+/-! ## asm cond each -/
+
+theorem fnAsm_spec (ev : Arg → Val → M Val) :
+    ∀ (args : List Arg) (at_ : Val), fnAsm ev args at_ = Spec.asm (args.map (fun a => ev a)) at_
+  | [], at_ => by simp [fnAsm, Spec.asm]
+  | a :: r, at_ => by
+    simp only [fnAsm, Spec.asm, List.map]
+    congr 1
+    funext v
+    exact fnAsm_spec ev r v
+
+/-- a `cond` argument as the specification sees it: the two computations of a two-element list -/
+def condPair (dev : Dev) (e : Arg → M Val) : Arg → Option (M Val × M Val)
+  | .raw _ [c, v] => some (evalValue dev e c, evalValue dev e v)
+  | _ => none
+
+theorem fnCond_spec (dev : Dev) (e : Arg → M Val) :
+    ∀ (args : List Arg), (∀ a ∈ args, ∀ r, a ≠ .lit (.aref r)) →
+      fnCond dev e args = Spec.cond (args.map (condPair dev e))
+  | [], _ => by simp [fnCond, Spec.cond]
+  | a :: r, hno => by
+    have ih := fnCond_spec dev e r (fun x hx => hno x (List.mem_cons_of_mem _ hx))
+    have ha := hno a (List.mem_cons_self ..)
+    cases a with
+    | raw l es =>
+      match es with
+      | [c, v] => simp [fnCond, Spec.cond, condPair, ih]
+      | [] => simp [fnCond, Spec.cond, condPair]
+      | [_] => simp [fnCond, Spec.cond, condPair]
+      | _ :: _ :: _ :: _ => simp [fnCond, Spec.cond, condPair]
+    | lit v =>
+      cases v <;> simp [fnCond, Spec.cond, condPair]
+      exact absurd rfl (ha _)
+    | path p => simp [fnCond, Spec.cond, condPair]
+    | call f as => simp [fnCond, Spec.cond, condPair]
+    | unk => simp [fnCond, Spec.cond, condPair]
+
+theorem eachLoop_spec (ev : Arg → Val → M Val) (fn : Arg) (key : Bytes) (a : Nat) :
+    ∀ (n i : Nat) (acc : List Val) (h : Heap),
+      eachLoop ev fn key a n i acc h =
+        (match Spec.eachFrom (fun at' => ev fn at') key a n i h with
+         | (.ok rs, h') => (.ok (acc.reverse ++ rs), h')
+         | (.error er, h') => (.error er, h'))
+  | 0, i, acc, h => by simp [eachLoop, Spec.eachFrom]
+  | n + 1, i, acc, h => by
+    simp only [eachLoop, Spec.eachFrom, bind_apply, getHeap_apply, alloc_apply, pure_apply]
+    cases hb : ev fn (Val.mref h.length) (h ++ [Cell.map [(b!"src", (h.arrAt a).getD i Val.null)]]) with
+    | mk r h1 =>
+      cases r with
+      | error er => simp
+      | ok w =>
+        simp only []
+        rw [eachLoop_spec ev fn key a n (i + 1)]
+        cases Spec.eachFrom (fun at' => ev fn at') key a n (i + 1) h1 with
+        | mk r2 h2 => cases r2 <;> simp
+
+theorem fnEach_spec (ev : Arg → Val → M Val) (at_ : Val) (a0 : Arg) (f : Bytes) (fargs : List Arg) (a : Nat) (h : Heap)
+    (h0 : ev a0 at_ h = (.ok (.aref a), h)) :
+    fnEach ev at_ [a0, .call f fargs] h = Spec.each (fun at' => ev (.call f fargs) at') b!"asm" a h := by
+  simp only [fnEach, bind_apply, h0, pure_apply, getHeap_apply, Spec.each, eachLoop_spec]
+  cases Spec.eachFrom (fun at' => ev (.call f fargs) at') b!"asm" a (h.arrAt a).length 0 h with
+  | mk r h' => cases r <;> simp
+
+theorem fnEach_key_spec (ev : Arg → Val → M Val) (at_ : Val) (a0 k : Arg) (f : Bytes) (fargs : List Arg) (a : Nat)
+    (key : Bytes) (h : Heap)
+    (h0 : ev a0 at_ h = (.ok (.aref a), h)) (hk : ev k at_ h = (.ok (.str key), h)) :
+    fnEach ev at_ [a0, .call f fargs, k] h = Spec.each (fun at' => ev (.call f fargs) at') key a h := by
+  simp only [fnEach, bind_apply, h0, hk, pure_apply, getHeap_apply, Spec.each, eachLoop_spec]
+  cases Spec.eachFrom (fun at' => ev (.call f fargs) at') key a (h.arrAt a).length 0 h with
+  | mk r h' => cases r <;> simp
+
 end OjgVerif.Asm
